@@ -18,6 +18,8 @@ THEOREMS = [
     "C36.fromTimestamp_eq_usOfFloat",
     "C36.int_legs_exact",
     "C36.rounding_id",
+    "C36.rd_is_rounding",
+    "C36.float_legs_rd",
 ]
 RULE = ("pairs (a, b) of time values of one representation — floats (microsecond-aligned k/1e6, half-microsecond ties, dyadic, random, "
         "negative, tiny), ints, timedeltas and aware datetimes (UTC and other offsets), around 0, the present, and the 2^51..2^53 us "
@@ -338,11 +340,12 @@ def extra(rng, tier):
 
 LEVEL_TEXT = ("Lean theorems on the exact integer-microsecond model: timedelta <-> datetime round-trip exactly (all values); to_seconds, "
               "to_timedelta and to_datetime preserve order for EVERY monotone rounding function (floats, ints, timedeltas, datetimes); float "
-              "legs round-trip exactly for |us| <= 2^52 - 2^20 under the stated error budget of a faithful rounding (relative error <= 2^-53). Tied to "
+              "legs round-trip exactly for |us| <= 2^52 - 2^20; the executable IEEE rounding `rd` is PROVED to be such a rounding. Tied to "
               "the code by exact differential comparison (doubles as integer ratios) against the compiled model, which runs its own "
               "IEEE-754 round-to-nearest-even.")
 LEVEL_NOTE = ("The float theorems are stated for an abstract rounding function with the properties of IEEE round-to-nearest (monotone, fixes "
-              "integers below 2^53, relative error <= 2^-53); that the executable `rd` used by the driver has them is validated by the "
-              "correspondence (exact agreement with CPython doubles), not proved. Round trip through floats is proved for |us| <= 2^52 - 2^20 (the "
-              "oracle checks it up to 2^52, where it still holds empirically); beyond 2^52 us the code genuinely loses microseconds "
-              "(documented, not claimed). `now` is checked at run time, not proved.")
+              "integers up to 2^53, relative error <= 2^-53) and, by rd_is_rounding (proved, with single Mathlib modules), hold for the executable "
+              "`rd` of the driver, which in turn agrees exactly with CPython doubles on every run. `rd` models the normal range only (no overflow, "
+              "no subnormals — far outside time values). Round trip through floats is proved for |us| <= 2^52 - 2^20 (the oracle checks it up to "
+              "2^52, where it still holds empirically); beyond 2^52 us the code genuinely loses microseconds (documented, not claimed). `now` is "
+              "checked at run time, not proved.")
